@@ -404,6 +404,9 @@ func genScenario(t *rapid.T, parallel bool) scenario {
 		for j := 0; j < n; j++ {
 			w := wop{kind: "update", val: val, at: drawAt(t, "w")}
 			val++
+			if rapid.IntRange(0, 6).Draw(t, "zeroBody") == 3 {
+				w.val = 0 // the all-default (empty) message is a value like any other: creating an item with it is a change
+			}
 			if s.isValue {
 				w.kind, w.id = "set", "value"
 			} else {
